@@ -329,6 +329,13 @@ Definition stirling (a : expr) : expr :=
 Definition f64_to_u64 (e : expr) : sampler Z :=
   y <- sfloor e ;; if (y <? 0) || (U64MAX <=? y) then sfail 3 else sret y.
 
+(* the value of `f` after the match of step 5.1 (binomial.rs:296-327), as one expression *)
+Definition btpe_f51 (n : Z) (pe : expr) (m y : Z) : expr :=
+  let s := pe /. (one -. pe) in
+  let a := s *. (zf n +. one) in
+  if m <? y then btpe_up (Z.to_nat (y - m)) a s m None
+  else if y <? m then btpe_down (Z.to_nat (m - y)) a s y one
+  else one.
 Section Btpe.
 Variables (n : Z) (pe : expr).
 Let nf := zf n.
@@ -342,11 +349,7 @@ Definition btpe_step5 (m : Z) (x_m : expr) (y : Z) (v : expr) : sampler (option 
   sq <- (if 20 <? k then sask CLt (zf k) (half *. npq -. one) else sret false) ;;
   if negb sq then
     (* 5.1 *)
-    let s := pe /. q in
-    let a := s *. (nf +. one) in
-    let f := if m <? y then btpe_up (Z.to_nat (y - m)) a s m None
-             else if y <? m then btpe_down (Z.to_nat (m - y)) a s y one
-             else one in
+    let f := btpe_f51 n pe m y in
     gt <- sask CGt v f ;;
     if gt then sret None else sret (Some y)
   else
@@ -518,6 +521,10 @@ Fixpoint h2pe_down (cnt : nat) (n1 n2 k i : Z) (f : option expr) : sampler expr 
     h2pe_down c n1 n2 k i f
   end.
 
+(* the value of `f` after the two `for` loops of step 4.1 (hypergeometric.rs:359-377) *)
+Definition h2pe_f41 (n1 n2 k m y : Z) : sampler expr :=
+  if m <? y then h2pe_up (Z.to_nat (y - m)) n1 n2 k m None
+  else h2pe_down (Z.to_nat (m - Z.max y 0)) n1 n2 k (Z.max y 0) None.
 Section H2pe.
 (* all integer quantities are below 2^51 here, so that float arithmetic on integer-valued (or
    half-integer-valued) operands is exact and is carried out in Z (`zf`, `plus_half`) *)
@@ -533,8 +540,7 @@ Definition h2pe_step4 (y : Z) (v : expr) (vz : bool) : sampler (option Z) :=
   let yf := zf y in
   if (m <? 100) || (y <=? 50) then
     (* 4.1 *)
-    f <- (if m <? y then h2pe_up (Z.to_nat (y - m)) n1 n2 k m None
-          else h2pe_down (Z.to_nat (m - Z.max y 0)) n1 n2 k (Z.max y 0) None) ;;
+    f <- h2pe_f41 n1 n2 k m y ;;
     le <- sask CLe v f ;;
     if le then sret (Some y) else sret None
   else
